@@ -157,6 +157,14 @@ def pool():
     P['ptr_table_mixed'] = 'const char one[2] = {1, 2};\nconst char *t1[] = {one, "s1", one, "s2", "s3"};\nconst char *t2[] = {"u1", one, "u2"};\nchar *gp;\nvoid main() { gp = "late"; }\n'
     P['proto_only_calls'] = 'void pa(); void pb(); void pc();\nchar c;\nvoid main() { pa(); pb(); pc(); }\n'
     P['many_errors'] = 'char c;\nvoid main() { u1 = 1; u2 = 2; u3 = 3; }\n'
+    P['literals_local_init'] = 'char *g1; char *g2;\nchar pick(char *a, char *b) { g1 = a; g2 = b; return 1; }\nchar r;\nvoid main() { char c = pick("hello", "world"); r = c; }\n'
+    P['literals_local_init4'] = 'char *g[4];\nchar pick4(char *a, char *b, char *c, char *d) { g[0] = a; g[1] = b; g[2] = c; g[3] = d; return 2; }\nchar r;\nvoid f() { char x = pick4("p", "qq", "rrr", "ssss"); char y = pick4("tt", "u", "vvvv", "www"); r = x + y; }\nvoid main() { f(); }\n'
+    P['literals_local_tern'] = 'char *gp; char k;\nvoid main() { char *q = k ? ("yes") : "no"; gp = q; }\n'
+    P['proto_twice'] = 'char acc;\nchar fa(); char fa();\nchar fb() { return 1; }\nchar fc() { return 2; }\nchar fa() { return 3; }\nvoid main() { acc = fa() + fb() + fc(); }\n'
+    P['proto_thrice_mixed'] = 'char acc;\nvoid p1(); void p2(); void p1(); void p2(); void p1();\nvoid q1() { acc = 1; }\nvoid q2() { acc = 2; }\nvoid p2() { acc = 3; }\nvoid p1() { acc = 4; }\nvoid main() { p1(); p2(); q1(); q2(); }\n'
+    P['macro_d'] = '#define SCALE(v) ((v) << 1)\nchar r;\nvoid main() { r = SCALE(3); }\n'
+    P['macro_e'] = '#define SCALE(v, by) ((v) << (by))\nchar r;\nvoid main() { r = SCALE(3, 2); }\n'
+    P['macro_f'] = '#define SCALE 4\nchar r;\nvoid main() { r = SCALE; }\n'
     P['superchip'] = 'superchip char s1; superchip short s2; char z1;\nvoid main() { s1 = z1; s2 = s1; }\n'
     return P
 
@@ -166,10 +174,13 @@ def outcome(j):
     return (j.get('status'), json.dumps(j.get('err'), sort_keys=True), j.get('display') or j.get('msg'))
 
 
-def run_batch(items):
-    """one driver process compiling `items` [(id, args, src)] in order; returns list of outcomes"""
+def run_batch(items, same_thread=True):
+    """one driver process compiling `items` [(id, args, src)] in order - by default all in ONE thread, so that process-wide AND
+    thread-local state of the library is carried from one compilation to the next; returns list of outcomes"""
     lines = ['C\t%s\t%s\t%s' % (i, common._hex('\x1f'.join(a)), common._hex(s)) for i, a, s in items]
-    p = subprocess.run([common.build_driver()], input='\n'.join(lines) + '\n', capture_output=True, text=True, env=dict(common.ENV, RUST_LOG='off'))
+    env = dict(common.ENV, RUST_LOG='off')
+    if same_thread: env['CCDRV_SAME_THREAD'] = '1'
+    p = subprocess.run([common.build_driver()], input='\n'.join(lines) + '\n', capture_output=True, text=True, env=env)
     out = {}
     for l in p.stdout.split('\n'):
         if l.startswith('{"id":'):
